@@ -85,7 +85,7 @@ Proof.
       + destruct (tie_query_constraint n D Hnd (eta_of sg) Hl q) as [qc' [Eq' Hq']].
         assert (qc' = qc) by congruence. subst qc'.
         apply (Hq' sg Ha). exists (sg (SMv SQuery)), (sg (SMf SQuery)).
-        rewrite <- Hq. apply csp_sat_ext. intros [k|[k|]|[k|]]; reflexivity.
+        rewrite <- Hq. apply csp_sat_ext. intros [k|[k|]|[k|]|k|k]; reflexivity.
     - intros [eta [Hl [Hb Hq]]].
       destruct (tie_query_constraint n D Hnd eta Hl q) as [qc' [Eq' Hq']].
       assert (qc' = qc) by congruence. subst qc'.
@@ -95,7 +95,7 @@ Proof.
       exists (with_aux (with_mins n D eta (sg_eta eta)) a b). rewrite csp_sat_app, Hab, andb_true_r.
       assert (Ha2: eta_assignment D eta (with_aux (sg_eta eta) a b)) by (intros i Hi; apply Ha0; exact Hi).
       rewrite <- (base_with_mins n D Hnd eta Hl Hver Hb _ Ha2).
-      apply csp_sat_ext. intros [k|[k|]|[k|]]; reflexivity. }
+      apply csp_sat_ext. intros [k|[k|]|[k|]|k|k]; reflexivity. }
   split.
   - intros Hn. apply negb_true_iff in Hn. split; [reflexivity|]. intros Hex. apply Hiff in Hex. congruence.
   - intros [_ Hno]. apply negb_true_iff. destruct sat; [|reflexivity]. exfalso. apply Hno. apply Hiff. reflexivity.
